@@ -1,6 +1,7 @@
 """C08 - translate returns regexes that mean exactly what match does; one capturing group per extended group."""
 import re
 
+from .. import findings as K
 from ..runner import Outcome, HarnessError
 from .. import ast as A, ref as R, names as N, lang, util
 from ..util import F, G
@@ -105,7 +106,7 @@ def check_one(mode, pats, excl, flags, names, out, asts=None, stream='enum', ext
                     for s in seqs:
                         nodes.extend(ext_nodes(s))
                     if rx.groups != len(nodes):
-                        if 'K1' in ARMED and '**(' in str(pats):
+                        if 'K1' in ARMED and K.k1_text(pats, mode == 'gl'):
                             out.known_hit('K1', dict(case, problem='group count'))
                             return
                         out.violation(dict(case, problem='group count', groups=rx.groups, ext_nodes=len(nodes), regex=rx.pattern),
